@@ -16,12 +16,14 @@ pub struct Violation {
     pub group: String,
     /// the specs (1 for per-run classes, 2 for cross-run classes) that show it
     pub witnesses: Vec<Spec>,
+    /// the records those specs produced when the violation was observed
+    pub records: Vec<Record>,
 }
 
 #[derive(Default)]
 struct GroupAgg {
     /// outcome key -> (count, first witness)
-    outcomes: BTreeMap<String, (u64, Spec)>,
+    outcomes: BTreeMap<String, (u64, Spec, Record)>,
     known: bool,
     parent: Option<String>,
     out_fps: BTreeSet<u64>,
@@ -187,7 +189,7 @@ impl Agg {
 
         // per-run oracle failures
         for (class, detail) in &rec.failures {
-            self.push_violation(Violation { class: class.clone(), detail: detail.clone(), group: spec.group.clone(), witnesses: vec![spec.clone()] });
+            self.push_violation(Violation { class: class.clone(), detail: detail.clone(), group: spec.group.clone(), witnesses: vec![spec.clone()], records: vec![rec.clone()] });
         }
 
         // cross-run oracles
@@ -211,17 +213,17 @@ impl Agg {
                 g.parent = spec.parent.clone();
             }
             let is_new = !g.outcomes.contains_key(&key);
-            g.outcomes.entry(key.clone()).or_insert((0, spec.clone())).0 += 1;
+            g.outcomes.entry(key.clone()).or_insert((0, spec.clone(), rec.clone())).0 += 1;
             if let Some(p) = &spec.parent {
                 self.children.entry(p.clone()).or_default().insert(spec.group.clone());
             }
             if is_new {
                 let g = &self.groups[&spec.group];
                 if g.outcomes.len() >= 2 {
-                    let others: Vec<(String, Spec)> =
-                        g.outcomes.iter().filter(|(k, _)| **k != key).map(|(k, v)| (k.clone(), v.1.clone())).collect();
+                    let others: Vec<(String, Spec, Record)> =
+                        g.outcomes.iter().filter(|(k, _)| **k != key).map(|(k, v)| (k.clone(), v.1.clone(), v.2.clone())).collect();
                     let known = g.known;
-                    let (other_key, other_spec) = others[0].clone();
+                    let (other_key, other_spec, other_rec) = others[0].clone();
                     if spec.op == Op::IsEuclidean {
                         let mut pair = [key.clone(), other_key.clone()];
                         pair.sort();
@@ -230,6 +232,7 @@ impl Agg {
                             detail: format!("verdict class differs within group {} (same symbol up to renumbering/dual/representation/hash keys)", spec.group),
                             group: spec.group.clone(),
                             witnesses: vec![other_spec, spec.clone()],
+                            records: vec![other_rec, rec.clone()],
                         });
                     } else if known {
                         let kind = if key == "none" || other_key == "none" {
@@ -244,6 +247,7 @@ impl Agg {
                             detail: format!("outcomes {:?} and {:?} for the same known-euclidean input (group {})", other_key, key, spec.group),
                             group: spec.group.clone(),
                             witnesses: vec![other_spec, spec.clone()],
+                            records: vec![other_rec, rec.clone()],
                         });
                     } else {
                         self.unjudged_outcome_splits.insert(spec.group.clone());
@@ -273,6 +277,7 @@ impl Agg {
                                     detail: format!("base group {} has verdict {}, its cover group {} has verdict {}", p, a, c, b),
                                     group: c.clone(),
                                     witnesses: vec![wa.1.clone(), wb.1.clone()],
+                                    records: vec![wa.2.clone(), wb.2.clone()],
                                 });
                             }
                         }
